@@ -77,18 +77,18 @@ type FuncContract struct {
 }
 
 type FieldDecl struct {
-	Key    string // "kvElection.isLeader"
-	Class  string // immutable | atomic | guarded_by | owned_by | ghost
-	Lock   string // field name of the lock in the same struct ("mu") for guarded_by / write_under
-	Owners []string
-	Inv    *Clause // value invariant over v: checked at stores, assumed at loads
+	Key     string // "kvElection.isLeader"
+	Class   string // immutable | atomic | guarded_by | owned_by | ghost
+	Lock    string // field name of the lock in the same struct ("mu") for guarded_by / write_under
+	Owners  []string
+	Inv     *Clause // value invariant over v: checked at stores, assumed at loads
 	OnStore *Clause // store-site policy: checked at stores only
-	Sort   Sort
-	AType  string // for atomic.Value: contained Go type ("string", "time.Time")
-	Mono   bool   // ghost field that only ever goes from false to true
-	Counter bool  // integer field changed by steps of one only (checked at every store): 2^63 steps away from wrapping, treated as mathematical
-	Line   int
-	Props  []string
+	Sort    Sort
+	AType   string // for atomic.Value: contained Go type ("string", "time.Time")
+	Mono    bool   // ghost field that only ever goes from false to true
+	Counter bool   // integer field changed by steps of one only (checked at every store): 2^63 steps away from wrapping, treated as mathematical
+	Line    int
+	Props   []string
 }
 
 type LockInv struct {
@@ -109,19 +109,19 @@ type UFun struct {
 }
 
 type Contracts struct {
-	Funcs     map[string]*FuncContract
-	Fields    map[string]*FieldDecl
-	LockInvs  []LockInv
-	LockOrder [][2]string // a < b : a must be taken before b
-	Specs     map[string]*SpecFn
-	UFuns     map[string]*UFun
-	Axioms    []Clause
-	Consts    map[string]*Expr
-	Always    *FuncContract // ghosts and hooks that apply to every verification unit
-	ObjInvs   []LockInv     // Lock field holds the struct name
+	Funcs      map[string]*FuncContract
+	Fields     map[string]*FieldDecl
+	LockInvs   []LockInv
+	LockOrder  [][2]string // a < b : a must be taken before b
+	Specs      map[string]*SpecFn
+	UFuns      map[string]*UFun
+	Axioms     []Clause
+	Consts     map[string]*Expr
+	Always     *FuncContract // ghosts and hooks that apply to every verification unit
+	ObjInvs    []LockInv     // Lock field holds the struct name
 	GhostSorts map[string]Sort
-	Path      string
-	NLines    int
+	Path       string
+	NLines     int
 }
 
 var clauseLabelRE = regexp.MustCompile(`^\s*(?:(C[0-9]{2,3}(?:\+C[0-9]{2,3})*)\.)?([A-Za-z_][A-Za-z0-9_\.\(\)\->]*)\s*:\s*(.*)$`)
@@ -568,7 +568,6 @@ func LoadContracts(path string) (*Contracts, error) {
 	}
 	return cs, nil
 }
-
 
 // headerNames: the receiver name and the parameter names a contract header uses ("func (e *T) f(a, b)").
 func (fc *FuncContract) headerNames() (recv string, params []string) {
